@@ -258,6 +258,7 @@ func F2(b Bounds, yield func(Item) bool) {
 		}
 	}
 	f2params(y)
+	f2nulls(y)
 	f2recursion(b, y)
 	f2static(b, y)
 	f2return(b, y)
@@ -321,6 +322,73 @@ func f2params(y func(string, *Program)) {
 					}
 					y(fmt.Sprintf("params/a%d.d%d.k%d.%s", ar, nd, k, src), &Program{Funcs: []*Func{f}, Main: main})
 				}
+			}
+		}
+	}
+}
+
+// null as an argument value (literal, variable, result of a call) and as a default: an explicitly
+// passed null stays null (the default is for *omitted* arguments only); the callee prints every
+// parameter through a `=== null` test. Parameter under test first or second, two calls each.
+func f2nulls(y func(string, *Program)) {
+	show := func(tag, v string) *Stmt {
+		return IfElse(Bin("===", Var(v), Null()), []*Stmt{EchoS(tag + "=N ")}, []*Stmt{Echo(Str(tag+"="), Var(v), Str(" "))})
+	}
+	defs := map[string]*Expr{"nodef": nil, "def5": Int(5), "defnull": Null()}
+	for _, dn := range []string{"nodef", "def5", "defnull"} {
+		for _, arg := range []string{"omitted", "int", "null", "nullvar", "intvar", "call-noreturn", "call-returnnull", "call-returnint"} {
+			if arg == "omitted" && defs[dn] == nil {
+				continue
+			}
+			for _, pos := range []string{"first", "second"} {
+				if pos == "first" && arg == "omitted" {
+					continue // an omitted first argument needs named arguments: not in the core
+				}
+				p := &Program{}
+				var pre []*Stmt
+				var a *Expr
+				switch arg {
+				case "int":
+					a = Int(3)
+				case "null":
+					a = Null()
+				case "nullvar":
+					pre, a = []*Stmt{Assign("n", Null())}, Var("n")
+				case "intvar":
+					pre, a = []*Stmt{Assign("n", Int(4))}, Var("n")
+				case "call-noreturn":
+					p.Funcs = append(p.Funcs, &Func{Name: "g", Body: []*Stmt{Assign("z", Int(1))}})
+					a = Call("g")
+				case "call-returnnull":
+					p.Funcs = append(p.Funcs, &Func{Name: "g", Body: []*Stmt{Return(Null())}})
+					a = Call("g")
+				case "call-returnint":
+					p.Funcs = append(p.Funcs, &Func{Name: "g", Body: []*Stmt{Return(Int(6))}})
+					a = Call("g")
+				}
+				fn := &Func{Name: "f"}
+				var args []*Expr
+				if pos == "first" {
+					fn.Params = []Param{{Name: "u", Def: copyExpr(defs[dn])}, {Name: "v", Def: Int(8)}}
+					args = []*Expr{a}
+				} else {
+					fn.Params = []Param{{Name: "u"}, {Name: "v", Def: copyExpr(defs[dn])}}
+					args = []*Expr{Int(1)}
+					if a != nil {
+						args = append(args, a)
+					}
+				}
+				fn.Body = []*Stmt{show("u", "u"), show("v", "v"), Assign("u", Int(0)), Assign("v", Int(0)), Return(Int(2))}
+				p.Funcs = append(p.Funcs, fn)
+				p.Main = append(p.Main, pre...)
+				for i := 0; i < 2; i++ {
+					p.Main = append(p.Main, Assign("r", Call("f", args...)), Echo(Str("r"), Var("r"), Str(";")))
+				}
+				if arg == "nullvar" {
+					p.Main = append(p.Main, show("n", "n"))
+				}
+				p.Main = append(p.Main, EchoS("\n"))
+				y(fmt.Sprintf("nulls/%s.%s.%s", dn, arg, pos), p)
 			}
 		}
 	}
@@ -669,6 +737,7 @@ func F3(b Bounds, yield func(Item) bool) {
 			y("alias/"+src+"/"+m, p)
 		}
 	}
+	f3counterWrites(y)
 	// VarFastAssign: $d = $l OP $r / $d = $s with every operand form, destination aliasing an
 	// operand, and the destination slot previously holding each type.
 	for _, op := range []string{"copy", "*", "+"} {
@@ -753,6 +822,106 @@ func F3(b Bounds, yield func(Item) bool) {
 					IfElse(Var("d"), []*Stmt{EchoS("T")}, []*Stmt{EchoS("F")}), EchoS("\n"))
 			}
 			y(fmt.Sprintf("fastassign/copy-%s.prev-%s", kind, prev), &Program{Main: main})
+		}
+	}
+}
+
+// F3CounterActions: what the body does to the counter of the loop it runs in. Every program is
+// int-only and terminates by construction: forward jumps fire once because the counter only grows
+// afterwards, the backward jump is guarded by a once-flag, `!=` headers are never jumped over.
+var F3CounterActions = []string{"ahead=", "ahead+=", "ahead++", "back-once=", "back-once-=", "beyond", "every++"}
+
+// f3counterBody returns the body for an action on counter $v of a loop with bound 8 (compared by
+// cmp), the init value and whether the action applies.
+func f3counterBody(action, v, cmp string) (body []*Stmt, init int) {
+	at := func(k int, then ...*Stmt) *Stmt { return If(Eq(Var(v), Int(k)), then...) }
+	init = 1
+	body = []*Stmt{Echo(Var(v), Str(" "))}
+	switch action {
+	case "ahead=":
+		body = append(body, at(3, Assign(v, Int(5))))
+	case "ahead+=":
+		body = append(body, at(3, OpAssign(v, "+=", Int(2))))
+	case "ahead++":
+		body = append(body, at(3, IncDec(v, "post++")))
+	case "back-once=":
+		body = append(body, at(4, If(Eq(Var("once"), Int(0)), Assign("once", Int(1)), Assign(v, Int(2)))))
+	case "back-once-=":
+		body = append(body, at(4, If(Eq(Var("once"), Int(0)), Assign("once", Int(1)), OpAssign(v, "-=", Int(2)))))
+	case "beyond":
+		if cmp == "!=" {
+			body = append(body, at(3, Assign(v, Int(7)))) // lands exactly on the bound after the step
+		} else {
+			body = append(body, at(3, Assign(v, Int(50))))
+		}
+	case "every++":
+		init = 0 // 0,2,4,6 then 8: hits the bound exactly, also for `!=`
+		body = append(body, IncDec(v, "post++"))
+	}
+	return
+}
+
+func f3counterWrites(y func(string, *Program)) {
+	const bound = 8
+	for _, cmp := range []string{"<", "<=", "!="} {
+		for _, bk := range []string{"lit", "var"} {
+			for _, step := range []string{"post++", "pre++", "+=", "=+"} {
+				for _, action := range F3CounterActions {
+					body, init := f3counterBody(action, "i", cmp)
+					l := Loop(LFor, "i", bound, body...)
+					l.Cmp, l.Free, l.Init = cmp, true, Int(init)
+					if step != "post++" {
+						l.Step = step
+					}
+					main := []*Stmt{Assign("once", Int(0))}
+					if bk == "var" {
+						l.BoundVar = "n"
+						main = append(main, Assign("n", Int(bound)))
+					}
+					main = append(main, l, Echo(Str("|"), Var("i"), Str("\n")))
+					y(fmt.Sprintf("counter-write/for.%s.%s.%s/%s", cmp, bk, step, action), &Program{Main: main})
+				}
+			}
+		}
+	}
+	// while / do-while counters ($v = 0; while ($v < N) { $v++; body }): the body sees 1..N
+	for _, kind := range []string{LWhile, LDoWhile} {
+		for _, bk := range []string{"lit", "var"} {
+			for _, action := range F3CounterActions {
+				if action == "every++" {
+					continue // the header increment is already a body statement here
+				}
+				body, _ := f3counterBody(action, "i", "<")
+				l := Loop(kind, "i", bound, body...)
+				l.Free = true
+				main := []*Stmt{Assign("once", Int(0))}
+				if bk == "var" {
+					l.BoundVar = "n"
+					main = append(main, Assign("n", Int(bound)))
+				}
+				main = append(main, l, Echo(Str("|"), Var("i"), Str("\n")))
+				y(fmt.Sprintf("counter-write/%s.%s/%s", kind, bk, action), &Program{Main: main})
+			}
+		}
+	}
+	// foreach key / value variables: writing them must not disturb the iteration
+	for _, target := range []string{"v", "k"} {
+		for _, m := range []string{"=", "+=", "post++", "=+"} {
+			var w *Stmt
+			switch m {
+			case "=":
+				w = Assign(target, Int(9))
+			case "+=":
+				w = OpAssign(target, "+=", Int(4))
+			case "post++":
+				w = IncDec(target, "post++")
+			case "=+":
+				w = Assign(target, Bin("+", Var(target), Int(3)))
+			}
+			l := Loop(LForeach, "v", 3, Echo(Var("k"), Str(":"), Var("v"), Str(" ")), w, Echo(Var(target), Str(" ")))
+			l.Key = "k"
+			l.Subj = Arr(Int(5), Int(6), Int(7))
+			y(fmt.Sprintf("counter-write/foreach.%s/%s", target, m), &Program{Main: []*Stmt{l, Echo(Str("|"), Var("k"), Var("v"), Str("\n"))}})
 		}
 	}
 }
